@@ -92,6 +92,51 @@ func dice(rng *rng.RNG) func(int) int {
 	}
 }
 
+// toIntegerArgument converts a number received from a script to an int, refusing the values an int cannot hold.
+func toIntegerArgument(f float64) (int, error) {
+	if math.IsNaN(f) || f >= math.MaxInt64 || f < math.MinInt64 {
+		return 0, fmt.Errorf("%v cannot be used as an integer", f)
+	}
+	return int(f), nil
+}
+
+// checkedRandomRange wraps randomRange so that invalid bounds are reported as an error instead of making the rng panic
+func checkedRandomRange(rng *rng.RNG) func(float64, float64) (int, error) {
+	randomRange := randomRange(rng)
+	return func(lowerBound, upperBound float64) (int, error) {
+		lower, err := toIntegerArgument(lowerBound)
+		if err != nil {
+			return 0, fmt.Errorf("invalid lower bound: %w", err)
+		}
+		upper, err := toIntegerArgument(upperBound)
+		if err != nil {
+			return 0, fmt.Errorf("invalid upper bound: %w", err)
+		}
+		if upper < lower {
+			return 0, fmt.Errorf("upper bound %v is lower than lower bound %v", upper, lower)
+		}
+		if upper-lower+1 <= 0 {
+			return 0, fmt.Errorf("range from %v to %v is too large", lower, upper)
+		}
+		return randomRange(lower, upper), nil
+	}
+}
+
+// checkedDice wraps dice so that an invalid number of sides is reported as an error instead of making the rng panic
+func checkedDice(rng *rng.RNG) func(float64) (int, error) {
+	dice := dice(rng)
+	return func(sides float64) (int, error) {
+		n, err := toIntegerArgument(sides)
+		if err != nil {
+			return 0, fmt.Errorf("invalid number of sides: %w", err)
+		}
+		if n < 1 {
+			return 0, fmt.Errorf("a dice needs at least one side, got %v", n)
+		}
+		return dice(n), nil
+	}
+}
+
 // round rounds f to the nearest integer
 func round(f float64) float64 {
 	return math.Round(f)
